@@ -81,7 +81,13 @@ Inductive case :=
 | CRem (v : variant) (cap0 : Z) (lo m : Z) (lists : list (list Z * list Z)) (panicked : bool) (final : snap)
   (* readers calling Stats() while writers Set / SetIfAbsent / SetAndGetRemoved / Delete items that all have size c:
      reads[r] = the distinct answers reader r got, in order; snapshot at quiescence *)
-| CStat (v : variant) (cap0 c : Z) (reads : list (list stats)) (panicked : bool) (final : snap).
+| CStat (v : variant) (cap0 c : Z) (reads : list (list stats)) (panicked : bool) (final : snap)
+  (* first touches of FRESH wide caches: a batch of trials; in each trial a new wide cache (capacity cap0, n shards, routing
+     tab) is built and goroutine j issues, at the same instant as the others, its one call codes[j] on keys[j] (1 = Set with
+     value keys[j]*64+j and size sizes[j]; 2 Get, 5 Peek, 6 Exist); after all goroutines have returned, bit j of the trial's
+     mask says whether keys[j] is found by Exist and Peek with that value (mask -1: Exist and Peek disagree or a foreign
+     value).  outcomes = the masks of all trials of the batch, run-length encoded (mask, number of trials). *)
+| CFirst (v : variant) (cap0 n : Z) (tab : option (list (Z * nat))) (keys sizes codes : list Z) (outcomes : list (Z * Z)) (panicked : bool).
 
 (* ---------------- decidable equalities ---------------- *)
 Definition res_eqb (a b : res) : bool :=
@@ -375,6 +381,21 @@ Definition stat_ok (v : variant) (cap0 c : Z) (reads : list (list stats)) (panic
   && stat_one v cap0 c s && stats_eqb s t && nodupb keys && zlist_eqb keys (map fst items)
   && (let '(len, _, _, ev) := s in (len =? Z.of_nat (length keys)) && forallb (fun l => ev_mono 0 (l ++ [s])) reads).
 
+(* ---------------- first touches of fresh wide caches ----------------
+   The keys are pairwise distinct, nothing is deleted and for every shard the items Set into it fit (first_dom): whatever the
+   schedule, at quiescence exactly the keys that were Set are present, with their values (C04_First.v). *)
+Fixpoint expected_mask (codes : list Z) (bit : Z) : Z :=
+  match codes with [] => 0 | c :: r => (if c =? 1 then bit else 0) + expected_mask r (2 * bit) end.
+Definition first_sets (v : variant) (keys sizes codes : list Z) : list (Z * Z) :=      (* key, size of the Set calls *)
+  flat_map (fun p => if snd p =? 1 then [fst p] else []) (combine (combine keys (map (bsize v) sizes)) codes).
+Definition first_dom (v : variant) (cap0 n : Z) (route : Z -> nat) (keys sizes codes : list Z) : bool :=
+  (1 <=? n) && (0 <=? cap0) && (cap0 <? B) && nodupb keys && forallb inB sizes
+  && (length keys =? length sizes)%nat && (length keys =? length codes)%nat && (Z.of_nat (length keys) <=? 60)
+  && forallb (fun i => zsum (map snd (filter (fun ks => Nat.eqb (route (fst ks)) i) (first_sets v keys sizes codes))) <=? shard_cap cap0 n)
+       (nodup Nat.eq_dec (map route keys)).
+Definition first_ok (codes : list Z) (outcomes : list (Z * Z)) (panicked : bool) : bool :=
+  negb panicked && forallb (fun oc => (fst oc =? expected_mask codes 1) && (0 <? snd oc)) outcomes.
+
 (* ---------------- the two functions the driver evaluates ---------------- *)
 Definition case_accept (c : case) : bool :=
   match c with
@@ -387,6 +408,7 @@ Definition case_accept (c : case) : bool :=
   | CHeld v cap0 steps held => seq_accept v (new_lru cap0) steps && held_ok held
   | CRem v cap0 lo m lists panicked final => rem_ok v cap0 lo m lists panicked final
   | CStat v cap0 c reads panicked final => stat_ok v cap0 c reads panicked final
+  | CFirst v cap0 n tab keys sizes codes outcomes panicked => first_ok codes outcomes panicked
   end.
 
 (* outside the property's quantifier (negative or absurdly large sizes / capacities) nothing is claimed *)
@@ -403,6 +425,8 @@ Definition case_holds (c : case) : bool :=
   | CHeld v cap0 steps held => if seq_dom cap0 steps then seq_holds v (new_istate cap0) steps && held_ok held else true
   | CRem v cap0 lo m lists panicked final => if rem_dom cap0 lo m then rem_ok v cap0 lo m lists panicked final else true
   | CStat v cap0 c reads panicked final => if inB cap0 && inB c then stat_ok v cap0 c reads panicked final else true
+  | CFirst v cap0 n tab keys sizes codes outcomes panicked =>
+      if first_dom v cap0 n (wroute n tab) keys sizes codes then first_ok codes outcomes panicked else true
   end.
 
 (* ---------------- soundness ---------------- *)
@@ -487,7 +511,8 @@ Qed.
 Theorem case_sound : forall c, case_accept c = true -> case_holds c = true.
 Proof.
   intros [v cap0 steps|v capacity n tab univ steps|v cap0 evs final|v cap0 wide univ sizes progs panicked probe final
-         |v cap0 ng univ obs panicked probe final|v cap0 steps held|v cap0 lo m lists panicked final|v cap0 c reads panicked final];
+         |v cap0 ng univ obs panicked probe final|v cap0 steps held|v cap0 lo m lists panicked final|v cap0 c reads panicked final
+         |v cap0 n tab keys sizes codes outcomes panicked];
     cbn [case_accept case_holds]; intros Ha.
   - destruct (seq_dom cap0 steps) eqn:Ed; [|reflexivity]. unfold seq_dom in Ed. apply andb_prop in Ed as [Hc Hd].
     apply inB_spec in Hc. change (new_istate cap0) with (abs (new_lru cap0)).
@@ -508,4 +533,5 @@ Proof.
     apply seq_sound; [apply new_MInv; exact Hc|exact Hd|exact Ha].
   - destruct (rem_dom cap0 lo m); [exact Ha|reflexivity].
   - destruct (inB cap0 && inB c); [exact Ha|reflexivity].
+  - destruct (first_dom v cap0 n (wroute n tab) keys sizes codes); [exact Ha|reflexivity].
 Qed.
